@@ -300,6 +300,14 @@ func (batch *Batch) readMessage(
 		batch.err = dontExpectEOF(err)
 	}
 
+	// Never resume inside a record batch that was consumed entirely: when
+	// log compaction removed the last records of a batch (or all of them) the
+	// offsets that were read stop short of the end of the batch, and fetching
+	// from there returns the same batch again.
+	if err != nil && batch.msgs != nil && batch.msgs.consumedEnd > batch.offset {
+		batch.offset = batch.msgs.consumedEnd
+	}
+
 	return
 }
 
